@@ -80,7 +80,10 @@ static struct tstate {
 static int nT;
 static FILE *lg;
 static int runtime, counter;
-/* up to MAXACT actions, comma separated on the command line: kill:N or err:N:ERRNO (mode: 1 kill, 2 err) */
+/* up to MAXACT actions, comma separated on the command line: kill:N, err:N:ERRNO, short:N:HOW (the N-th call, a write, is
+ * asked for fewer bytes: HOW 1 = one byte, 2 = half, 3 = all but one) or full:N:HOW (the disk fills up during the N-th call:
+ * it is shortened like that and every later write to a file fails with ENOSPC) (mode: 1 kill, 2 err, 3 short, 4 full) */
+static int disk_is_full;
 #define MAXACT 4
 static struct { int target, mode, err; } act[MAXACT];
 static int nact;
@@ -315,6 +318,10 @@ main(int argc, char *argv[])
 			act[nact].mode = 1;
 			act[nact].target = atoi(tok + 5);
 			nact++;
+		} else if (strncmp(tok, "short:", 6) == 0 || strncmp(tok, "full:", 5) == 0) {
+			act[nact].mode = tok[0] == 's' ? 3 : 4;
+			sscanf(strchr(tok, ':') + 1, "%d:%d", &act[nact].target, &act[nact].err);
+			nact++;
 		} else if (strncmp(tok, "err:", 4) == 0) {
 			char name[32] = "";
 			act[nact].mode = 2;
@@ -398,6 +405,26 @@ main(int argc, char *argv[])
 							kill(leader, SIGKILL);
 							ptrace(PTRACE_CONT, tid, 0, 0);
 							continue;
+						}
+						/* calls that move data into a file, and the register that holds how much (bytes; segments for writev) */
+						int is_write = SC[k].nr == SYS_write || SC[k].nr == SYS_pwrite64 || SC[k].nr == SYS_writev
+							|| SC[k].nr == SYS_sendfile || SC[k].nr == SYS_copy_file_range;
+						if ((mode == 3 || mode == 4) && is_write) {
+							struct user_regs_struct r;
+							ptrace(PTRACE_GETREGS, tid, 0, &r);
+							unsigned long long *cnt = SC[k].nr == SYS_sendfile ? &r.r10 : (SC[k].nr == SYS_copy_file_range ? &r.r8 : &r.rdx);
+							unsigned long long n = *cnt;
+							if (n > 1) {
+								*cnt = inj_errno == 1 ? 1 : (inj_errno == 2 ? n / 2 : n - 1);
+								ptrace(PTRACE_SETREGS, tid, 0, &r);
+								fprintf(lg, "%d note(VERIF-SHORTENED %llu -> %llu) = 0\n", tid, n, *cnt);
+							}
+							if (mode == 4)
+								disk_is_full = 1;
+							mode = 0;
+						} else if (disk_is_full && mode == 0 && is_write && (int) si.entry.args[SC[k].nr == SYS_copy_file_range ? 2 : 0] > 2) {
+							mode = 2;
+							inj_errno = ENOSPC;
 						}
 						if (mode == 2) {
 							struct user_regs_struct r;
